@@ -176,3 +176,32 @@ def Sys.init (size : Nat) (ctxOf : Nat → Ctx) : Sys :=
   ⟨fun _ => Obj.fresh, size, List.range size, ctxOf, fun _ => .idle⟩
 
 end Rare.C19.Pool
+
+/-! ### Variable occurrences (round 4b): of the compiled expression and of the parse tree, for any arithmetic -/
+namespace Rare.C19
+open Rare.C19.Pool
+
+/-- The look-up an atom stands for. -/
+def Atom.vars {α : Type} : Atom α → List Var
+  | .num _ => []
+  | .named n => [.named n]
+  | .idx i => [.idx i]
+
+/-- The variable occurrences of a parse tree, left to right (groups entered). -/
+def Tree.vars {α : Type} (cls : Bytes → Option (Atom α)) : Tree → List Var
+  | .lit v => match cls v with
+    | some a => a.vars
+    | none => []
+  | .grp _ e => e.vars cls
+  | .un _ e => e.vars cls
+  | .bin _ _ l r => l.vars cls ++ r.vars cls
+
+/-- The look-ups `Eval` makes on a compiled expression, in order (`Pool.lookups` for any arithmetic). -/
+def Expr.vars {α : Type} : Expr α → List Var
+  | .val _ => []
+  | .named n => [.named n]
+  | .idx i => [.idx i]
+  | .un _ e => e.vars
+  | .bin _ l r => l.vars ++ r.vars
+
+end Rare.C19
